@@ -19,7 +19,7 @@ EXIT_OK, EXIT_VIOLATION, EXIT_UNDECIDED, EXIT_CHECKER = 0, 1, 2, 3
 
 
 def _import_repo():
-    from . import tensor  # noqa: F401 (registers the torch models)
+    from . import tensor, npmodels  # noqa: F401 (register the torch / numpy models)
     src = os.path.join(REPO, "src")
     if src not in sys.path:
         sys.path.insert(0, src)
